@@ -384,6 +384,9 @@ for _k, _v in _MIN_ADDENDA.items():
 
 # minimums that do not apply when the monitor established that there is nothing of that kind to observe
 WAIVERS = {
+    # a ciphertext that is longer than the payload (e.g. a per-report nonce inside the chunk) cannot be
+    # aligned with the payload by the monitor: the within-report keystream scan does not apply
+    "C03": {"ciphertext_length_differs_from_payload(noted)": ["reports_scanned_for_internal_reuse"]},
     "C18": {"server_never_used_more_than_one_thread": ["runs_on_several_worker_threads", "pool16_runs_on_several_threads",
                                                         "pool2_runs_on_several_threads"]},
 }
